@@ -1,0 +1,54 @@
+// Copyright (c) 2026 10X Genomics, Inc. All rights reserved.
+
+//go:build verif
+
+package core
+
+// The "refuse to VDR across a symlink" guard as the code evaluates it, with
+// the directories it looks at, for the external verification harness.  Only
+// compiled with `-tags verif`.
+
+// VerifVdrGuard is the guard's verdict for one fork.
+type VerifVdrGuard struct {
+	Fqname  string
+	Path    string
+	Refused bool
+	// the directories Fork.vdrAcrossSymlink / Node.vdrCheckSymlink lstat
+	Chain []string
+}
+
+// VerifVdrGuards returns the verdict of Fork.vdrAcrossSymlink for every fork
+// of every stage node.
+func (self *Pipestance) VerifVdrGuards() []VerifVdrGuard {
+	var out []VerifVdrGuard
+	for _, n := range self.allNodes() {
+		if len(n.subnodes) > 0 {
+			continue
+		}
+		var nodeChain []string
+		for node := n; node.parent != nil; node = node.parent.getNode() {
+			nodeChain = append(nodeChain, node.path)
+		}
+		for _, f := range n.forks {
+			g := VerifVdrGuard{Fqname: f.fqname, Path: f.path, Refused: f.vdrAcrossSymlink()}
+			g.Chain = append(g.Chain, nodeChain...)
+			g.Chain = append(g.Chain, f.path)
+			mds := []*Metadata{f.split_metadata, f.join_metadata}
+			for _, c := range f.chunks {
+				mds = append(mds, c.metadata)
+			}
+			for _, md := range mds {
+				if md == nil {
+					continue
+				}
+				for _, p := range []string{md.path, md.curFilesPath, md.TempDir()} {
+					if p != "" {
+						g.Chain = append(g.Chain, p)
+					}
+				}
+			}
+			out = append(out, g)
+		}
+	}
+	return out
+}
